@@ -1,9 +1,34 @@
-"""Per-property specification used by ./check: theorem modules, engines, evidence texts."""
+"""Per-property specification used by ./check and by gen_manifest.py: theorem modules, engines, evidence texts."""
 
-KERNEL = "Lean 4.33.0 kernel (thorough tier: re-checked by leanchecker); axioms allowed: propext, Classical.choice, Quot.sound — audited per theorem with #print axioms on every run"
-CORR = ("correspondence check (differential): harness generators/printers (Rust, /verif/harness), Lean driver parser "
-        "(/verif/lean/Main.lean, EyeballVerif/Driver), line diff in ./check; validates the hand-written model only on the inputs it runs")
-IMBL = "imbl::Vector modelled as a mathematical sequence (List) with the API semantics read from imbl 5.0.0 (pop on empty = no-op, truncate beyond length = no-op, insert/set/remove panic out of range)"
+KERNEL = ("Lean 4.33.0 kernel (thorough tier: compiled modules re-checked by leanchecker); axioms allowed: propext, "
+          "Classical.choice, Quot.sound — audited per theorem with #print axioms on every run; no sorry/admit/own axioms/native_decide (token scan on every run)")
+CORR = ("correspondence check (differential testing, not proof): harness generators/printers (Rust, /verif/harness), Lean driver "
+        "parser (/verif/lean/Main.lean, EyeballVerif/Driver), line diff in ./check; it validates the hand-written model only on the inputs it runs")
+IMBL = ("imbl::Vector modelled as a mathematical sequence (List) with the API semantics read from imbl 5.0.0 "
+        "(pop on empty = no-op, truncate beyond length = no-op, insert/set/remove panic out of range)")
+TOKIO_BC = ("tokio::sync::broadcast modelled as an append-only log with a retained window of next_power_of_two(capacity) messages, "
+            "a cursor per receiver (Lagged moves it to the oldest retained message, Closed only after the window is drained, send "
+            "without receivers stores nothing, send and sender-drop wake parked receivers) — read from tokio 1.53.1, validated by the runs over capacities 1..8,16,64")
+ELEM = "element type instantiated to u64 / Nat in the correspondence runs (the theorems are polymorphic in the element type)"
+
+VEC_RULE = ("engine vec — exhaustive: (A) initial contents of length 0..3 x every mutator with every index 0..len+2, sequences of length 1 and 2 "
+            "(thorough: 3), plain+batched subscriber; (B) every transaction body of length <=2 (thorough 3) over 16 ops x 5 ways of ending x with/without "
+            "subscribers; (C) capacities {1,2,3,4,5,7,8} x 0..B+3 unpolled updates x transactions x vector dropped or not x pre-polled or not; (D) every "
+            "keep/set/remove/set-remove/stop decision sequence over vectors of length <=3 (thorough 4), direct and in a transaction; random: 2500 (thorough 20000) "
+            "histories of 10..50 (80) steps with up to 4 subscribers of both flavours created/dropped/polled at random, capacities {1,2,3,5,7,16,64}, entries, "
+            "transactions, final drop of the vector. Every case is non-trivial (it mutates and delivers); distinct = distinct (ops, results) traces.")
+
+def vec_prop(mods, expl, extra_assump=()):
+    return {
+        "level": "proof",
+        "lean_modules": mods,
+        "engines": [{"name": "vec"}],
+        "rule": VEC_RULE,
+        "exhaustive": True,
+        "trusted_base": [KERNEL, CORR, IMBL, TOKIO_BC],
+        "assumptions": [ELEM, "single-threaded histories (ObservableVector is not Sync-shared in the model; &mut self API)"] + list(extra_assump),
+        "explanation": expl,
+    }
 
 PROPS = {
     "C18": {
@@ -15,8 +40,59 @@ PROPS = {
                  "A case is non-trivial when apply does not panic; distinct = distinct (ops, results) traces."),
         "exhaustive": True,
         "trusted_base": [KERNEL, CORR, IMBL],
-        "assumptions": ["element type instantiated to u64 / Nat in the correspondence runs (the theorems are polymorphic)",
-                        "mappings drawn from a table of 4 functions in the correspondence runs (the theorem quantifies over all functions)"],
+        "assumptions": [ELEM, "mappings drawn from a table of 4 functions in the correspondence runs (the theorem quantifies over all functions)"],
         "explanation": "theorems c18_* are universally quantified over diffs, vectors and mappings; the correspondence run ties Diff.apply/Diff.map to VectorDiff::apply/map",
+        "claim": ("Lean 4 theorems c18_map_apply / c18_map_id / c18_apply_panics_iff / c18_apply_get / c18_apply_length, universally quantified over diffs, "
+                  "vectors and mappings, about the model Diff.apply / Diff.map; the model is tied to VectorDiff::apply/map by an exhaustive small-scope + "
+                  "random large-vector differential run on every check."),
+        "technique": "Lean 4 proof (case analysis + list lemmas) + model/implementation correspondence",
+        "design_ref": "DESIGN.md §6 C18",
     },
+    "C17": dict(vec_prop(["EyeballVerif.Props.C17"],
+        "c17_exec_plain/c17_direct/c17_txn_op: every mutator = the plain-vector call (contents, return value, panic condition); c17_for_each: the entries loop meets the "
+        "list-level traversal specification travSpec for every vector and decision sequence; c17_visits_each_once / c17_first_index spell the specification out"),
+        claim=("Lean 4 theorems: every ObservableVector/transaction mutator returns and stores exactly what the plain-vector operation does and panics exactly when out of range "
+               "(c17_exec_plain, c17_direct, c17_txn_op); the entries()/for_each loop, for every vector and every per-element decision sequence, equals the list-level "
+               "specification (c17_for_each, by induction with an explicit loop invariant), which visits each element once in order, reports the current index and leaves the rest "
+               "untouched on early exit. Tied to the code by exhaustive + random differential runs (all indices incl. out of range with catch_unwind, all decision sequences on vectors <= 3)."),
+        technique="Lean 4 proof (induction over the traversal loop, case analysis per mutator) + model/implementation correspondence",
+        design_ref="DESIGN.md §6 C17"),
+    "C05": dict(vec_prop(["EyeballVerif.Props.C05"],
+        "c05_exec_faithful: for every mutator and contents, the recorded diff replayed strictly on the contents before gives the contents after; no diff only if nothing changed; every diff is validOn the contents"),
+        claim=("Lean 4 theorem c05_exec_faithful (every call's diff, replayed strictly on the state before, yields the state after; documented no-ops record nothing; exactly one diff otherwise) "
+               "plus the receiver-level theorems shared with C06/C08; tied to the code by the vec engine, whose implementation-side oracle replays every delivered diff on a strict replica "
+               "and compares it with the vector after every message, for plain and batched streams."),
+        technique="Lean 4 proof (per-operation refinement) + model/implementation correspondence",
+        design_ref="DESIGN.md §6 C05"),
+    "C06": dict(vec_prop(["EyeballVerif.Props.C06"],
+        "c06_plain_reset / c06_batched_reset: a Reset is handed out only when more than B messages were pending, carries the newest recorded state and consumes the log; "
+        "c06_window_ge_capacity: B >= capacity; c06_batched_consumes_all; c06_pending_consumed_all — for every log, window size and cursor"),
+        claim=("Lean 4 theorems over every log, window size B, cursor and closed flag: Reset only if more than B >= capacity messages were pending and it carries the newest message's state "
+               "(c06_plain_reset, c06_batched_reset, c06_window_ge_capacity); Pending only when nothing is left to deliver (c06_pending_consumed_all); a batched item consumes everything "
+               "(c06_batched_consumes_all). Tied to the code by lag scenarios over capacities 1..8 (exhaustive in the number of unpolled updates) and random histories."),
+        technique="Lean 4 proof (induction over the drain loops of handle_lag / batched poll) + model/implementation correspondence",
+        design_ref="DESIGN.md §6 C06"),
+    "C07": dict(vec_prop(["EyeballVerif.Props.C07"],
+        "c07_abandon: for every list of transaction events (mutators incl. clear, traversals, rollbacks, panicking calls) dropping the transaction restores the exact pre-state "
+        "(contents, log, receivers); c07_inv_run: batch replayed on the pre-state = working copy along every body; c07_commit / c07_commit_replay"),
+        claim=("Lean 4 theorems: abandoning a transaction after any sequence of transaction events leaves contents, channel log and receivers exactly as before (c07_abandon); the transaction "
+               "invariant 'recorded batch replayed on the untouched contents = working copy' holds along every body incl. clear and entry traversals (c07_inv_run); commit installs the working "
+               "copy, publishes nothing for an empty batch and otherwise exactly one message carrying the whole batch (c07_commit, c07_commit_replay). Tied to the code by exhaustive transaction bodies."),
+        technique="Lean 4 proof (invariant by induction over transaction events) + model/implementation correspondence",
+        design_ref="DESIGN.md §6 C07"),
+    "C08": dict(vec_prop(["EyeballVerif.Props.C08"],
+        "c08_no_early_end: for every log/window/receiver state a poll on an open channel never reports the end; c08_end_consumed_all: the end is reported only with the cursor at the end of the log; "
+        "c08_lagged_after_drop_gets_final: a lagging receiver of a dropped vector first receives Reset(final state); c08_drop_wakes"),
+        claim=("Lean 4 theorems over every log, window and receiver state: no end-of-stream while the sender exists (c08_no_early_end); the end is reported only after everything was delivered "
+               "(c08_end_consumed_all); a receiver that lagged when the vector was dropped is first reset to the final state (c08_lagged_after_drop_gets_final — the repaired defect D6); dropping "
+               "wakes every parked receiver (c08_drop_wakes). Tied to the code by drop scenarios for every capacity 1..8 x lag depth x flavour."),
+        technique="Lean 4 proof (case analysis over receiver outcomes, induction over handle_lag) + model/implementation correspondence",
+        design_ref="DESIGN.md §6 C08"),
 }
+
+ENGINES = [
+    {"name": "diff", "path": "harness/src/eng_diff.rs", "serves_properties": ["C18"],
+     "kind_free_text": "differential correspondence (real VectorDiff vs Lean model) + implementation-side oracle"},
+    {"name": "vec", "path": "harness/src/eng_vec.rs", "serves_properties": ["C05", "C06", "C07", "C08", "C17"],
+     "kind_free_text": "differential correspondence (real ObservableVector/subscriber streams vs Lean model OV) + implementation-side oracles (strict replica, plain-vector reference, pending-message ledger, wake flags)"},
+]
